@@ -146,6 +146,8 @@ let check_line (line : string) : unit =
             let want = if not (List.mem k present) then '-' else if List.mem k real_writes then '2' else if List.mem k real_reads then '1' else '0' in
             if c <> want then oracle "declared_equals_borrowed") alive
       end;
+      (* C06: "and nothing else": the slots of the same types under another dynamic id stay unborrowed *)
+      String.iter (fun c -> if c <> '0' && c <> '-' then oracle "declared_equals_borrowed") (get "dynalive");
       String.iteri (fun k c -> let want = if List.mem k present then '0' else '-' in if c <> want then oracle "released_after_drop") (get "after");
       (* C13: setup modifies no existing resource, creates only through default-providing accessors, is idempotent *)
       let rv = split_on ',' (get "setup") in
